@@ -1447,6 +1447,42 @@ impl<'t> Gen<'t> {
             self.prog.modules[0].stmts.push(Stmt::Res(e));
             self.drain_queue();
         }
+        // One program in six has a twin of one of its resources: the same relation under the path
+        // with / without a trailing slash (two different paths that are easy to conflate).
+        if self.t.chance(1, 6) {
+            let candidates: Vec<E> = self.prog.modules[0]
+                .stmts
+                .iter()
+                .filter_map(|s| match s {
+                    Stmt::Res(e @ E::Relation(u, _)) if matches!(**u, E::Uri(_, _)) => Some(e.clone()),
+                    _ => None,
+                })
+                .collect();
+            if !candidates.is_empty() {
+                let e = self.t.pick_ref(&candidates).clone();
+                let mut has_rec = false;
+                e.visit(&mut |x| has_rec |= matches!(x, E::Rec(_, _)));
+                if let (false, E::Relation(u, xs)) = (has_rec, e) {
+                    if let E::Uri(mut segs, q) = *u {
+                        let twin = match segs.last() {
+                            Some(Seg::Root) if segs.len() >= 2 => {
+                                segs.pop();
+                                true
+                            }
+                            Some(Seg::Root) | None => false,
+                            Some(_) => {
+                                segs.push(Seg::Root);
+                                true
+                            }
+                        };
+                        if twin {
+                            self.prog.modules[0].stmts.push(Stmt::Res(E::Relation(Box::new(E::Uri(segs, q)), xs)));
+                            self.labels.insert("path-twin");
+                        }
+                    }
+                }
+            }
+        }
         // Import statements, then a tape-chosen statement order per module.
         for (ii, imp) in self.prog.imports.clone().iter().enumerate() {
             self.prog.modules[imp.module].stmts.push(Stmt::Use(ii));
